@@ -74,7 +74,12 @@ pub const NODE_FIELDS: &[FDef] = &[
     f("uni", "Uni", Ret::Uni, Idiom::OptRes, false, false, 22),
     f("unis", "[Uni]", Ret::Uni, Idiom::Res, false, false, 23),
     f("leaf", "Leaf", Ret::Leaf, Idiom::Res, false, false, 24),
+    f("ritems", "[Int]", Ret::Int, Idiom::Res, false, false, 25),
+    f("ritemsReq", "[Int!]!", Ret::Int, Idiom::Res, false, false, 26),
 ];
+
+/// static fields whose list items are `Result`s and can fail one by one
+pub const STATIC_ITEM_FAULT_FIELDS: &[&str] = &["ritems", "ritemsReq"];
 
 pub const LEAF_FIELDS: &[FDef] = &[
     f("id", "Int!", Ret::Int, Idiom::Res, false, false, 1),
@@ -464,6 +469,20 @@ async fn run(ctx: &Context<'_>, parent: &'static str, field: &'static str, d: No
     }
 }
 
+/// One `Result` item of a static list: fails if the plan holds an item fault for its path.
+fn static_item(d: NodeData, salt: u32, i: u32, list_path: &str, field: &str) -> Result<i32> {
+    let ipath = format!("{list_path}.{i}");
+    if world(|w| w.item_faults.contains_key(&ipath)) {
+        sim::count("fault:list-item-error");
+        world(|w| {
+            let seq = w.log.len();
+            w.log.push(REvent { seq, kind: RKind::Failed(Fault::ResolverError), path: ipath.clone(), parent: String::new(), field: field.to_string(), line: 0, col: 0, node_id: d.id, ev: d.ev });
+        });
+        return Err(err(Fault::ResolverError, &ipath));
+    }
+    Ok(d.int(salt * 8 + i))
+}
+
 fn mk_ent(d: NodeData, salt: u32, idx: u32) -> Ent {
     let c = d.child(salt, idx);
     if d.is_node(salt, idx) { Ent::Node(Node(c)) } else { Ent::Leaf(Leaf(c)) }
@@ -605,6 +624,18 @@ macro_rules! node_fields {
                 run(ctx, $name, "leaf", d).await?;
                 Ok(if d.natural_null(24) { None } else { Some(Leaf(d.child(24, 0))) })
             }
+            async fn ritems(&self, ctx: &Context<'_>) -> Result<Option<Vec<Option<Result<i32>>>>> {
+                let d = self.data();
+                run(ctx, $name, "ritems", d).await?;
+                let path = path_of(ctx);
+                Ok(Some((0..d.len(25)).map(|i| Some(static_item(d, 25, i, &path, "ritems"))).collect()))
+            }
+            async fn ritems_req(&self, ctx: &Context<'_>) -> Result<Vec<Result<i32>>> {
+                let d = self.data();
+                run(ctx, $name, "ritemsReq", d).await?;
+                let path = path_of(ctx);
+                Ok((0..d.len(26)).map(|i| static_item(d, 26, i, &path, "ritemsReq")).collect())
+            }
         }
     };
 }
@@ -644,6 +675,12 @@ fn take_channel(ch: i32) -> Option<ChanRx<SubItem>> {
     world(|w| w.channels.remove(&ch))
 }
 
+/// A stream item that is an error: the failure is at the root field's position of that event.
+fn note_stream_item_error(path: &str, field: &str, pos: (usize, usize), ev: i32) {
+    sim::count("fault:stream-item-error");
+    push_event(RKind::Failed(Fault::ResolverError), path, "Subscription", field, pos, NodeData { id: ev, ev });
+}
+
 async fn sub_enter(ctx: &Context<'_>, field: &'static str, ch: i32) -> Result<ChanRx<SubItem>> {
     let path = path_of(ctx);
     sim::log_order(format!("sub create {path} ch={ch}"));
@@ -660,21 +697,24 @@ async fn sub_enter(ctx: &Context<'_>, field: &'static str, ch: i32) -> Result<Ch
 impl Sub {
     async fn events(&self, ctx: &Context<'_>, ch: i32) -> Result<impl Stream<Item = Result<Node>> + use<>> {
         let rx = sub_enter(ctx, "events", ch).await?;
+        let (path, pos) = (path_of(ctx), (ctx.item.pos.line, ctx.item.pos.column));
         Ok(rx.map(move |it| match it {
             SubItem::Node(id) => Ok(Node(NodeData { id, ev: id })),
-            SubItem::Null | SubItem::Err(_) => {
-                sim::count("fault:stream-item-error");
+            SubItem::Null => Err(Error::new("harness: null item on a non-null stream")),
+            SubItem::Err(id) => {
+                note_stream_item_error(&path, "events", pos, id);
                 Err(Error::new("injected stream-item-error"))
             }
         }))
     }
     async fn events_opt(&self, ctx: &Context<'_>, ch: i32) -> Result<impl Stream<Item = Option<Result<Node>>> + use<>> {
         let rx = sub_enter(ctx, "eventsOpt", ch).await?;
+        let (path, pos) = (path_of(ctx), (ctx.item.pos.line, ctx.item.pos.column));
         Ok(rx.map(move |it| match it {
             SubItem::Node(id) => Some(Ok(Node(NodeData { id, ev: id }))),
             SubItem::Null => None,
-            SubItem::Err(_) => {
-                sim::count("fault:stream-item-error");
+            SubItem::Err(id) => {
+                note_stream_item_error(&path, "eventsOpt", pos, id);
                 Some(Err(Error::new("injected stream-item-error")))
             }
         }))
@@ -849,6 +889,7 @@ fn dyn_sub_field(def: &'static FDef) -> d::SubscriptionField {
             }
             let rx = take_channel(ch).ok_or_else(|| Error::new("harness: no such channel"))?;
             let is_ticks = def.ret == Ret::Int;
+            let (dpath, dpos) = (path.clone(), (rc.ctx.item.pos.line, rc.ctx.item.pos.column));
             Ok(rx.map(move |it| match it {
                 SubItem::Node(id) => {
                     if is_ticks {
@@ -858,8 +899,8 @@ fn dyn_sub_field(def: &'static FDef) -> d::SubscriptionField {
                     }
                 }
                 SubItem::Null => Ok(d::FieldValue::value(0)),
-                SubItem::Err(_) => {
-                    sim::count("fault:stream-item-error");
+                SubItem::Err(id) => {
+                    note_stream_item_error(&dpath, def.name, dpos, id);
                     Err(Error::new("injected stream-item-error"))
                 }
             }))
